@@ -302,6 +302,40 @@ func funcInfoOf(name string) funcInfo {
 //@   ensures[C05,C10] result-is-the-fresh-helper: err == nil ==> result == specRef(specName(len(c.funcs) > 0, c.funcCounter, specHelperName(old(c.varCounter)), false))
 //@   ensures[C05] counter: c.varCounter == old(c.varCounter) + 1 && routeOK(c)
 //
+//@ func (*converter).callEchoFunc
+//@   ensures[C16] echo-helper-flagged: c.echoHelperRequired
+//
+//@ func (*converter).Print
+//@   ensures[C16] echo-helper-flagged: c.echoHelperRequired && result == nil
+//
+//@ func (*converter).Panic
+//@   ensures[C16] echo-helper-flagged: c.echoHelperRequired && result == nil
+//@   ensures[C05] status-one-then-leave: len(specBlock(c)) >= 2 && specBlock(c)[len(specBlock(c)) - 2] == "set \"_e=1\"" && specBlock(c)[len(specBlock(c)) - 1] == "goto :end"
+//
+//@ func (*converter).SliceAssignment
+//@   ensures[C16] helper-flagged: c.sliceAssignmentHelperRequired && result == nil
+//
+//@ func (*converter).SliceLen
+//@   ensures[C16] helper-flagged: c.sliceLenGetHelperRequired && err == nil
+//
+//@ func (*converter).StringSubscript
+//@   ensures[C16] helper-flagged: c.stringSubscriptHelperRequired && err == nil
+//
+//@ func (*converter).StringLen
+//@   ensures[C16] helper-flagged: c.stringLenHelperRequired && err == nil
+//
+//@ func (*converter).Copy
+//@   ensures[C16] helper-flagged: c.sliceCopyHelperRequired && err == nil
+//
+//@ func (*converter).WriteFile
+//@   ensures[C16,C17] helper-flagged: c.fileWriteHelperRequired && result == nil
+//
+//@ func (*converter).ReadFile
+//@   ensures[C16,C17] helper-flagged: c.readHelperRequired && err == nil
+//
+//@ func (*converter).SliceInstantiation
+//@   ensures[C16] helper-flagged: c.sliceAssignmentHelperRequired && err == nil
+//
 //@ func (*converter).FuncStart
 //@   requires[C13,C16] named: name != ""
 //@   ensures[C05,C16] pushes: appended(c.funcs, old(c.funcs), funcInfoOf(name)) && c.funcCounter == old(c.funcCounter) + 1 && result == nil
